@@ -42,7 +42,7 @@ def cases(tier, seed):
             out.append(("time", s, tuple(CFG16)))
         for s in F.sliced(F.K4_pos(), seed % 16, 16):
             out.append(("time", s, tuple(CFG16)))
-        for s in F.P_ALL:
+        for s in F.P_ALL + F.P_HUGE:
             cf = ((),) if F.has_zero(s) else ((), ("dominated_operations", "non_idle_machines"))
             out.append(("time", s, cf))
         out.append(("tlc", 2))
